@@ -445,6 +445,42 @@ func c16E2E(c *caseCtx) (res caseResult) {
 		return
 	}
 	writerID := "stream/" + addrs[1]
+	// the node has a request outstanding at the peer; the (hostile) peer answers it twice in one envelope
+	resp := e.Request(actor.NewPID(addrs[1], "hello"), &remote.TestMessage{Data: []byte("a request")}, 20*time.Second)
+	var respPID *actor.PID
+	if waitFor(wd, func() bool {
+		for _, d := range lg2.snapshot() {
+			if tm, ok := d.Msg.(*remote.TestMessage); ok && string(tm.Data) == "a request" && d.Sender != nil {
+				respPID = d.Sender
+				return true
+			}
+		}
+		return false
+	}) {
+		rep, _ := (&remote.TestMessage{Data: []byte("reply")}).MarshalVT()
+		env := &remote.Envelope{Targets: []*actor.PID{respPID}, TypeNames: []string{"remote.TestMessage"},
+			Messages: []*remote.Message{{Data: rep, SenderIndex: -1}, {Data: rep, SenderIndex: -1}}}
+		payload, _ := env.MarshalVT()
+		if conn, err := net.DialTimeout("tcp", addrs[0], 5*time.Second); err == nil {
+			dc := drpcconn.New(conn)
+			ctx, cancel := context.WithTimeout(context.Background(), 5*time.Second)
+			if st, err := dc.NewStream(ctx, "/remote.Remote/Receive", rawEnc{}); err == nil {
+				_ = st.MsgSend(payload, rawEnc{})
+			}
+			got := make(chan error, 1)
+			go func() { _, err := resp.Result(); got <- err }()
+			select {
+			case err := <-got:
+				if err != nil {
+					res.violate("a request answered (twice) by the peer returned %v", err)
+				}
+			case <-time.After(wd):
+				res.inconclusive("Result() of the doubly answered request did not return")
+			}
+			cancel()
+			dc.Close()
+		}
+	}
 	nIn := 30
 	kinds := map[string]int{}
 	for i := 0; i < nIn; i++ {
